@@ -74,6 +74,10 @@ func harnessOverlay(repo, harnessDir string) (map[string][]byte, error) {
 	return ov, nil
 }
 
+// droppedHarness: harness files (overlay base names) that do not compile against the tree under
+// analysis; native replays leave them out as well.
+var droppedHarness = map[string]bool{}
+
 var harnessFuncRe = regexp.MustCompile(`(?m)^func (H_\w+)\(`)
 
 func loadProgram(repo, harnessDir string) (*Program, error) {
@@ -127,6 +131,7 @@ func loadProgram(repo, harnessDir string) (*Program, error) {
 			}
 			delete(ov, f)
 			dropped = append(dropped, filepath.Base(f))
+			droppedHarness[filepath.Base(f)] = true
 		}
 		fmt.Fprintf(os.Stderr, "dropping harness files that do not compile against the current tree: %v\n", dropped)
 	}
